@@ -2,11 +2,13 @@ import EaselModel.Core.Proto
 import EaselModel.Getopts.Model
 import EaselModel.Getopts.WfCheck
 import EaselModel.Getopts.Alloc
+import EaselModel.Getopts.Help
 /-! Line-protocol driver for the C14 model (same ops as harness/h_getopts.c). -/
 open EaselModel EaselModel.Proto EaselModel.Getopts
 
 structure S where
   table : List Opt := []
+  helps : List (Option Str × Nat) := []     -- help string and docgroup tag of each row (only `esl_opt_DisplayHelp` reads them)
   g : Option GC := none      -- the object with its allocation layer (`Alloc.lean`); the queries read its erasure
   dead : Bool := false      -- the model predicted a crash of the C code: nothing more is answered
 
@@ -53,9 +55,10 @@ def typed (g : G) (i : Nat) : String :=
   | 3 => match v with
     | .str s => "c" ++ toString ((s.getD 0 '\x00').toNat)
     | _ => "c~"
-  | _ => match v with
+  | 4 | 5 | 6 => match v with
     | .str s => "s" ++ toString s.length
     | _ => "s-1"
+  | _ => "t?"
 
 def dump (g : G) : String :=
   let n := argNumber g
@@ -64,8 +67,11 @@ def dump (g : G) : String :=
     | none => "~"
     | some a => hexOrDash (bytesOfStr a)
   let opts := (List.range g.opts.length).map fun i =>
-    (if (g.opt i).type == 0 then (if (g.valOf i).isNull then "~" else "1") else valRepr (g.valOf i)) ++ "/" ++ toString (g.setter i) ++ "/" ++ b01 (isDefault g i) ++ b01 (isOn g i) ++ b01 (isUsed g i)
-      ++ "/" ++ typed g i
+    -- the stored value is shown by index; the query calls go by NAME (`get_optidx_exactly`: the first option of that
+    -- name — the same index unless the table has duplicate names)
+    let j := (optidxExactly g.opts (g.opt i).name).getD i
+    (if (g.opt i).type == 0 then (if (g.valOf i).isNull then "~" else "1") else valRepr (g.valOf i)) ++ "/" ++ toString (g.setter j) ++ "/" ++ b01 (isDefault g j) ++ b01 (isOn g j) ++ b01 (isUsed g j)
+      ++ "/" ++ typed g j
   let a0 := (if (getArg g 0).isSome then "x" else "~") ++ (if (getArg g (-1)).isSome then "x" else "~")
   "ok argn=" ++ toString n ++ " args=" ++ ",".intercalate args ++ " a0=" ++ a0 ++ " opts=" ++ ";".intercalate opts
 
@@ -79,14 +85,16 @@ def step (s : S) (line : String) : S × String :=
     | some name, some t =>
       let o : Opt := { name := name, type := t, defval := field ws "def", envvar := field ws "env", range := field ws "range",
                        toggle := field ws "tog", required := field ws "req", incompat := field ws "inc" }
-      ({ s with table := s.table ++ [o] }, "ok")
+      let h : Option Str := if (arg? ws "help").isSome then field ws "help" else some "help".toList
+      ({ s with table := s.table ++ [o], helps := s.helps ++ [(h, (argNat? ws "grp").getD 0)] }, "ok")
     | _, _ => (s, "bad-op")
   | "create" :: _ =>
     if s.g.isSome || s.table.isEmpty then (s, "bad-op") else
     match createC s.table with
     | some g =>
       -- the table must lie in the class the theorems (`WF`) and the generator's conventions (`wfStrictB`) assume
-      ({ s with g := some g }, if wfStrictB s.table then "ok" else "ok-table-outside-wfStrict")
+      -- `create raw=1`: a deliberately ill-formed table (what Create does with it is `IllFormed.lean`)
+      ({ s with g := some g }, if wfStrictB s.table || (arg? ws "raw").isSome then "ok" else "ok-table-outside-wfStrict")
     | none => (s, "einval")
   | op :: _ =>
     match s.g with
@@ -115,6 +123,16 @@ def step (s : S) (line : String) : S × String :=
       | "verify" =>
         let (st, m) := verifyConfig g.abs
         (s, statusName st ++ (if m then " msg" else " nomsg"))
+      | "help" =>
+        let rows : List HelpRow := (s.table.zip s.helps).map fun (o, h) =>
+          { name := o.name, type := o.type, help := h.1, defval := o.defval, range := o.range, tag := h.2 }
+        (match displayHelp rows ((argNat? ws "grp").getD 0) ((argNat? ws "indent").getD 0) ((argNat? ws "width").getD 80) with
+          | some lines => (s, "ok " ++ hexOrDash (bytesOfStr (lines.flatMap (fun l => l ++ ['\n']))))
+          | none => (s, "einval -"))
+      | "spoofcmd" =>
+        (match spoofCmdline g.abs with
+          | some t => (s, "ok " ++ hexOrDash (bytesOfStr t))
+          | none => ({ s with dead := true }, "fault"))
       | "dump" =>
         -- a getter that would run off an unterminated block is a crash of the C code
         if !g.readable then ({ s with dead := true }, "fault")
